@@ -91,7 +91,7 @@ theorem tryLitClasses_nc (env : CoerceEnv) (vs en) {d : Py} (h : ∀ kvs, d ≠ 
       split
       · exact runLiteral_nc vs en (coerce_ok_notNS hc h)
       · exact tryLitClasses_nc env vs en h cs
-    | invalid e => rfl
+    | invalid e => exact tryLitClasses_nc env vs en h cs
     | crash x => have := coerce_nc env c d h; rw [hc] at this; cases this
 
 theorem nc_literalC (env : CoerceEnv) (vs en) : NC (.literalC env vs en) := by
